@@ -229,10 +229,13 @@ def check_resolve(chk, tu):
             la, lb = lin(a), lin(b)
             if c0.op == '<' and t and la is not None and isinstance(b, int):
                 guards.append((la, b))
-            if c0.op == '>' and pe.strip_casts(a) == N and b == 0:
-                facts['empty-rejected'] = True
-                if not t:
-                    facts['empty'] = True
+        for rop, ra, rb in pe.relations(p):
+            # pathLength is unsigned: `> 0` and `!= 0` are the same test, however it is spelled
+            for x, y, op_ in ((ra, rb, rop), (rb, ra, pe._REL_SWAP[rop])):
+                if pe.strip_casts(x) == N and y == 0 and op_ in ('>', '!=', '<=', '=='):
+                    facts['empty-rejected'] = True
+                    if op_ in ('<=', '=='):
+                        facts['empty'] = True
         if p.ret != 1:
             # failing paths must not have written anything
             w = [a for n, a, l in p.events if n in ('write', 'store-sym-index')]
